@@ -17,7 +17,7 @@ import torch
 from simkit import core, minimise, repo, runner
 
 EXC_TYPES = ["RuntimeError", "KeyboardInterrupt", "ValueError"]
-SEAMS = ["forward", "backward", "refgen", "rule", "func", "shuffle_fn"]
+SEAMS = ["forward", "backward", "refgen", "rule", "func", "shuffle_fn", "act_forward"]
 
 
 class C07(runner.Check):
